@@ -695,6 +695,10 @@ func main() {
 	// 4b. near-ties: values 1-4 ulps apart (must NOT be grouped), mixed with true ties
 	nearTies(rng)
 
+	// 4b'. extremes: ±Inf (anywhere in the slice, several, both signs) and magnitudes near MaxFloat64 of
+	//      both signs have perfectly good ranks; exact, approximate and legacy paths
+	extremes(rng)
+
 	// 4c. histories: look-alike tie vectors with large tie groups, evaluated one after the other in
 	//     one process; every answer must be the one the stateless specification gives for ITS case
 	historyFamily(rng)
@@ -1021,6 +1025,76 @@ func hasTie(T []int) bool {
 		}
 	}
 	return false
+}
+
+func extremes(rng *hx.Rand) {
+	inf, ninf, mx := math.Inf(1), math.Inf(-1), math.MaxFloat64
+	fixed := [][2][]float64{
+		{{1, inf, 3}, {2, 4}},
+		{{inf, 5}, {1, 2, 9}},
+		{{2, 4, 6}, {ninf, 3, 5, 7}},
+		{{-1.5e308, 1.5e308, 0}, {1, 2}},
+		{{inf, inf, 1}, {inf, 2}},
+		{{ninf, 0, inf}, {ninf, inf, 0}},
+		{{mx, -mx, 1}, {mx, 2, -mx, 3}},
+		{{inf}, {ninf}},
+		{{inf, 1}, {inf, inf}},
+	}
+	for _, c := range fixed {
+		mwBits3(c[0], c[1], defLim, defLimT, "extremes")
+		mwBits3(c[1], c[0], defLim, defLimT, "extremes")
+	}
+	special := []float64{inf, ninf, mx, -mx, 1.5e308, -1.5e308, 1e308, -1e308, 1.7e308}
+	n := hx.N(400, 5000)
+	for i := 0; i < n; i++ {
+		n1, n2 := 1+rng.Intn(6), 1+rng.Intn(6)
+		lim, limT := defLim, defLimT
+		extra := []string{"extremes"}
+		switch {
+		case i%20 == 0: // both samples beyond the untied limit: approximate method, distinct values + specials
+			n1, n2 = defLim+1+rng.Intn(10), defLim+1+rng.Intn(10)
+			extra = append(extra, "big")
+		case i%20 == 1: // around the tied limit
+			n1, n2 = defLimT-2+rng.Intn(5), defLimT-2+rng.Intn(5)
+			extra = append(extra, "big")
+		case i%4 == 2:
+			lim, limT = 2+rng.Intn(5), 1+rng.Intn(4)
+			n1, n2 = 1+rng.Intn(lim+2), 1+rng.Intn(lim+2)
+			extra = append(extra, "lowlim")
+		}
+		vals := 3 + rng.Intn(2*(n1+n2))
+		pSpecial := 1 + rng.Intn(4) // 1/2 .. 1/5 of the values are special
+		draw := func() float64 {
+			if rng.Intn(pSpecial+1) == 0 {
+				return special[rng.Intn(len(special))]
+			}
+			return float64(rng.Intn(vals) - vals/2)
+		}
+		f1, f2 := make([]float64, n1), make([]float64, n2)
+		for j := range f1 {
+			f1[j] = draw()
+		}
+		for j := range f2 {
+			f2[j] = draw()
+		}
+		if i%20 == 0 {
+			// untied large samples with a single +Inf / -Inf somewhere in the middle
+			for j := range f1 {
+				f1[j] = float64(2*j) + 0.5
+			}
+			for j := range f2 {
+				f2[j] = float64(2*j) - 7
+			}
+			f1[rng.Intn(n1-1)] = inf
+			if rng.Bool() {
+				f2[rng.Intn(n2-1)] = ninf
+			}
+			if rng.Bool() {
+				f2[rng.Intn(n2-1)+0] = mx
+			}
+		}
+		mwBits3(f1, f2, lim, limT, extra...)
+	}
 }
 
 // ulps moves x by k representable steps (k may be negative).
